@@ -368,19 +368,25 @@ class C18(core.Check):
             if lst and rnd.random() < .3:
                 lst.append(rnd.choice(lst))      # duplicate reference
             files[f] = lst
-        start = [names[0]]
+        # spelling of the file names: the same (possibly redundant) prefix in every reference and on the command
+        # line, so that one file has one name
+        pfx = rnd.choice(['', '', '', './', 'sub/../', './/', './sub/../'])
+        files = {pfx + f: [pfx + g for g in lst] for f, lst in files.items()}
+        pnames = [pfx + f for f in names]
+        start = [pnames[0]]
         if rnd.random() < .3:
-            start.append(rnd.choice(names))
+            start.append(rnd.choice(pnames))
         skip = ''
         if rnd.random() < .35:
-            skip = rnd.choice([re.escape(rnd.choice(names)), r'.*b\.tex', r'sub/.*', r'[ac]\.tex', 'nomatch'])
+            skip = rnd.choice([re.escape(rnd.choice(pnames)), r'.*b\.tex', r'sub/.*', r'[ac]\.tex', 'nomatch',
+                               re.escape(pfx) + r'[bc]\.tex', r'\./.*1\.tex'])
         d = tempfile.mkdtemp(dir=self.tmp)
         with_define = False
         try:
             os.makedirs(os.path.join(d, 'sub'), exist_ok=True)
             for f in names:
                 body = ['Text wq \\zzunk{x}.']
-                for g in files[f]:
+                for g in files[pfx + f]:
                     mac = rnd.choice(['\\input', '\\include'])
                     ref = g[:-4] if rnd.random() < .6 else g
                     body.append(rnd.choice(['', 'wtext ']) + mac + rnd.choice(['{%s}', '{%s}', ' {%s}']) % ref)
@@ -393,7 +399,7 @@ class C18(core.Check):
             if rnd.random() < .3:
                 # definitions file that itself inputs a file: not part of the closure of the given files
                 with open(os.path.join(d, 'defs.tex'), 'w') as fp:
-                    fp.write('\\newcommand{\\ydefd}{x}\n\\input{%s}\n' % names[-1][:-4])
+                    fp.write('\\newcommand{\\ydefd}{x}\n\\input{%s}\n' % pnames[-1][:-4])
                 cmd += ['--define', 'defs.tex']
                 with_define = True
             if skip:
@@ -411,6 +417,8 @@ class C18(core.Check):
         cnt = {'include_runs': 1, 'include_' + case['kind']: 1, 'edges': sum(len(v) for v in files.values())}
         if skip:
             cnt['with_skip'] = 1
+        if pfx:
+            cnt['with_path_prefix'] = 1
         if with_define:
             cnt['with_define_file'] = 1
         if any(f in files[f] for f in files):
@@ -441,7 +449,7 @@ class C18(core.Check):
 
     def quotas(self, tier):
         q = {'extract_docs': 2000, 'listed_calls': 5000, 'include_runs': 100, 'with_skip': 20, 'extract_with_defs': 300,
-             'with_define_file': 15,
+             'with_define_file': 15, 'with_path_prefix': 30,
              'with_self_inclusion': 20, 'include_rand': 30}
         for c in ('top', 'unkarg', 'unkenv', 'knownenv', 'removedenv', 'item', 'comment', 'skip', 'verb', 'verbatim', 'group',
                   'cell', 'usermacarg'):
